@@ -81,6 +81,9 @@ class DegEval:
             if nm in self.field_deg:
                 return self.field_deg[nm]
             return None
+        if k == "ArraySubscriptExpr":
+            self.expr(ch[1])
+            return self.expr(ch[0])
         if k == "UnaryOperator":
             op = n.get("opcode")
             if op in ("-", "+", "++", "--"):
@@ -115,6 +118,10 @@ class DegEval:
                     self.env[l["ref"]["id"]] = r
                 elif l["kind"] == "MemberExpr":
                     self.stores.append((render(l), l.get("name"), r, n))
+                elif l["kind"] == "ArraySubscriptExpr":
+                    b = strip(kids(l)[0], casts=True)
+                    nm_ = b.get("name") if b["kind"] == "MemberExpr" else (b.get("ref", {}).get("name") if b["kind"] == "DeclRefExpr" else None)
+                    self.stores.append((render(l), (nm_ or "") + "[]", r, n))
                 return r
             a, b = self.expr(ch[0]), self.expr(ch[1])
             if op in ("+", "-"):
